@@ -34,7 +34,29 @@ def candidates(name):
     c.append(('line', 9999))
     c += [('fn', f) for f in progs.function_names(lo.code)]
     c.append(('fn', 'absent_fn'))
+    # a method tracepoint given by a line instead of a name: the function whose own code contains the line
+    c += [('fnline', ln) for ln in range(1, len(open(lo.path).read().split('\n')) + 1)]     # every line, also those without an instruction
     return c
+
+
+def owners(lo):
+    """(name, first line) of a function / class body -> the source lines it owns: reference from the syntax tree, independent of code
+    objects. A line belongs to the innermost def / class statement whose extent (decorators to last line) contains it; lambdas and
+    comprehensions are part of the function they are written in."""
+    import ast
+    tree = ast.parse(open(lo.path).read())
+    nodes = [n for n in ast.walk(tree) if isinstance(n, (ast.FunctionDef, ast.AsyncFunctionDef, ast.ClassDef))]
+
+    def first(n):
+        return min([n.lineno] + [d.lineno for d in n.decorator_list])
+    out = {}
+    nlines = len(open(lo.path).read().split('\n')) + 1
+    for ln in range(1, nlines + 1):
+        inside = [n for n in nodes if first(n) <= ln <= n.end_lineno]
+        if inside:
+            n = max(inside, key=first)          # innermost = the one that starts last
+            out.setdefault((n.name, first(n)), set()).add(ln)
+    return out
 
 
 def cases(tier, seed):
@@ -85,6 +107,8 @@ def tp_args(loc, kind, limits, tpid):
         args.update(fire_count='-1', fire_period='0')
     if loc[0] == 'fn':
         args['method_name'] = loc[1]
+    if loc[0] == 'fnline':
+        args['stage'] = 'method_start'
     metrics = []
     if kind == 'log':
         args.update(log_msg='LOG ' + tpid, snapshot='no_collect')
@@ -92,7 +116,7 @@ def tp_args(loc, kind, limits, tpid):
         args.update(snapshot='no_collect')
         metrics = [('m_' + tpid, 'COUNTER')]
     elif kind == 'span':
-        args.update(span='method' if loc[0] == 'fn' else 'line', snapshot='no_collect')
+        args.update(span='method' if loc[0] in ('fn', 'fnline') else 'line', snapshot='no_collect')
     return args, metrics
 
 
@@ -106,7 +130,7 @@ def install(agent, basename, tps, limits, mode):
         for n, (loc, kind) in enumerate(tps):
             tpid = 'tp%d' % n
             args, metrics = tp_args(loc, kind, limits, tpid)
-            line = loc[1] if loc[0] == 'line' else 0
+            line = loc[1] if loc[0] in ('line', 'fnline') else 0
             pbs.append(PB(ID=tpid, path=basename, line_number=line, args=args, watches=[],
                           metrics=[Metric(name=m, type=MetricType.COUNTER) for m, _ in metrics]))
             ids.append(tpid)
@@ -127,7 +151,7 @@ def install(agent, basename, tps, limits, mode):
             for n, (loc, kind) in enumerate(tps):
                 tpid = 'tp%d' % n
                 args, metrics = tp_args(loc, kind, limits, tpid)
-                line = loc[1] if loc[0] == 'line' else 0
+                line = loc[1] if loc[0] in ('line', 'fnline') else 0
                 agent.tps.add_custom(basename, line, args, [], [MetricDefinition(m, 'counter') for m, _ in metrics])
                 ids.append(tpid)
         finally:
@@ -252,6 +276,7 @@ def run_case(ctx, desc):
         basename = name + '.py'
         main = lo.ns['main']
     tps = [(tuple(loc), kind) for loc, kind in desc['tps']]
+    own = owners(a if name in ('twin', 'twin2') else lo)      # (the twin modules are copies of one source: same functions, same lines)
     agent = rig.Agent()
     with rig.VirtualClock():
         ids = install(agent, basename, tps, desc['limits'], desc['mode'])
@@ -300,7 +325,8 @@ def run_case(ctx, desc):
         if ev.prog and ev.path in match_paths:
             for tpid, (loc, kind) in zip(ids, tps):
                 hit = (loc[0] == 'line' and ev.kind == 'line' and ev.line == loc[1]) or \
-                      (loc[0] == 'fn' and first_call and ev.func == loc[1])
+                      (loc[0] == 'fn' and first_call and ev.func == loc[1]) or \
+                      (loc[0] == 'fnline' and first_call and loc[1] in own.get((ev.func, ev.line), ()))
                 if hit:
                     if desc['limits'] == 'default' and fired_tp[tpid] >= 1:
                         continue
